@@ -4,6 +4,7 @@ from ref import terms as T
 from ref import universe as U
 
 ID = "C03"
+PARTS = ['api', 'src']      # outcome classes every run must produce (guards against a part of the exploration silently not running)
 RULE = ("state = (object o, static type term T); o ranges over the generated universe (scalars, enum members, instances, classes, subclass instances of builtins, "
         "containers of depth <= 2), T over all type terms up to the depth bound; route 1: pyanalyze.runtime.is_assignable(o, T) == member(o, T); "
         "route 2: `x: T = <literal o>` is diagnosed iff not member(o, T)")
